@@ -88,6 +88,7 @@ static std::vector<Params> param_domain(int k, const str &pd, const strs &S, con
   if (k_bucketed(k)) {
     std::vector<long> bs = full ? std::vector<long>{2, 3, 4, 5, n - 1, n, n + 1, 4096} : std::vector<long>{2, 3, n, 4096};
     if (pd == "min") bs = {2, 4};
+    if (pd == "minb") bs = {2, 4, n};          // min plus the single-bucket configuration (long in-bucket scans)
     if (prop == "C12") { bs.insert(bs.begin(), 1); bs.insert(bs.begin(), 0); }
     std::vector<long> seen;
     for (long b : bs) { if (b < 2 && prop != "C12") continue; if (b < 0) continue; if (std::find(seen.begin(), seen.end(), b) != seen.end()) continue; seen.push_back(b); v.push_back(P(b)); }
@@ -96,7 +97,7 @@ static std::vector<Params> param_domain(int k, const str &pd, const strs &S, con
   } else if (k == K_RPDAC || k == K_XBW) v.push_back(P(0));
   else if (k == K_HASHHF || k == K_HASHRPF || k == K_HASHUFFDAC || k == K_HASHRPDAC) {
     std::vector<long> ov = full ? std::vector<long>{0, 1, 10, 50, 100, 400} : std::vector<long>{0, 10, 100};
-    if (pd == "min") ov = {10};
+    if (pd == "min" || pd == "minb") ov = {10};
     for (long o : ov) v.push_back(P(o));
   } else if (k == K_BLOCKS) {
     long total = 0; for (auto &s : S) total += s.size() + 1;
@@ -109,14 +110,14 @@ static std::vector<Params> param_domain(int k, const str &pd, const strs &S, con
     }
     std::vector<long> ov = full ? std::vector<long>{0, 10, 100} : std::vector<long>{10};
     std::vector<long> th = full ? std::vector<long>{1, 2, 3, 8} : std::vector<long>{1, 2};
-    if (pd == "min") { th = {1}; }
+    if (pd == "min" || pd == "minb") { th = {1}; }
     if (!full && cuts.size() > 3) cuts = {cuts.front(), cuts[cuts.size() / 2], cuts.back()};
     for (long o : ov) for (long cu : cuts) for (long t : th) v.push_back(P(o, cu, t));
   } else if (k == K_FMINDEX) {
     if (full) {
       // (for C12 the reference vector is the first one: it must support substring search, so sampling 0 comes last)
       for (long bw : {1, 2, 3, 8, 64, 0}) { for (long bp : {2, 4, 20}) v.push_back(P(0, bp, bw)); for (long bp : {16, 32, 128}) v.push_back(P(1, bp, bw)); }
-    } else if (pd == "min") { v.push_back(P(0, 4, 2)); }
+    } else if (pd == "min" || pd == "minb") { v.push_back(P(0, 4, 2)); }
     else { for (long bw : {0, 1, 2, 8}) v.push_back(P(0, 4, bw)); for (long bw : {0, 3}) v.push_back(P(1, 16, bw)); }
   }
   return v;
@@ -124,7 +125,7 @@ static std::vector<Params> param_domain(int k, const str &pd, const strs &S, con
 static strs sources_for(int k, const str &pd) {
   strs v = {"fresh", "gen:1", "own:1"};
   if (k == K_HASHHF || k == K_HASHRPF) { v.push_back("own:2"); v.push_back("own:3"); if (pd == "full") { v.push_back("gen:2"); v.push_back("gen:3"); } }
-  if (pd != "min") v.push_back("gen2");
+  if (pd != "min" && pd != "minb") v.push_back("gen2");
   return v;
 }
 
